@@ -1524,6 +1524,8 @@ def neighbours(case: Case):
 
 
 PROP = Prop(
+    unclaimed_diffs_binding=True,   # the model transcribes the code outside the claim domain too (0 differences on every run):
+                                    # `claimed=False` silences the oracle only
     pid="C06",
     lean_targets=["OFCore.Props.C06"],
     driver="ofdrv_par",
